@@ -327,8 +327,10 @@ pub struct RawConfig {
     #[serde(default)]
     root: Root,
 
+    // Kept raw: an entry is only turned into an `AppenderConfig` by `appenders_lossy`, so that a
+    // malformed entry is reported and skipped instead of failing the whole document.
     #[serde(default)]
-    appenders: HashMap<String, AppenderConfig>,
+    appenders: HashMap<String, Value>,
 
     #[serde(default)]
     loggers: HashMap<String, Logger>,
@@ -381,9 +383,20 @@ impl RawConfig {
         let mut errors = vec![];
 
         for (name, appender) in &self.appenders {
+            let (appender, filters) = match split_appender(appender) {
+                Ok(parts) => parts,
+                Err(e) => {
+                    errors.push(DeserializingConfigError::Appender(name.clone(), e));
+                    continue;
+                }
+            };
             let mut builder = config::Appender::builder();
-            for filter in &appender.filters {
-                match deserializers.deserialize(&filter.kind, filter.config.clone()) {
+            for filter in filters {
+                let filter = filter
+                    .deserialize_into::<crate::filter::FilterConfig>()
+                    .map_err(anyhow::Error::from)
+                    .and_then(|filter| deserializers.deserialize(&filter.kind, filter.config));
+                match filter {
                     Ok(filter) => builder = builder.filter(filter),
                     Err(e) => errors.push(DeserializingConfigError::Filter(name.clone(), e)),
                 }
@@ -401,6 +414,21 @@ impl RawConfig {
     pub fn refresh_rate(&self) -> Option<Duration> {
         self.refresh_rate
     }
+}
+
+/// Splits a raw appender entry into its config and its filter entries. The filters are left
+/// untyped so that a malformed one only costs that filter.
+fn split_appender(entry: &Value) -> anyhow::Result<(AppenderConfig, Vec<Value>)> {
+    let mut entry = entry.clone();
+    let filters = match entry {
+        Value::Map(ref mut map) => map.remove(&Value::String("filters".to_owned())),
+        _ => None,
+    };
+    let filters = filters
+        .map(Value::deserialize_into)
+        .transpose()?
+        .unwrap_or_default();
+    Ok((entry.deserialize_into()?, filters))
 }
 
 fn de_duration<'de, D>(d: D) -> Result<Option<Duration>, D::Error>
